@@ -442,9 +442,10 @@ Definition LOOP_TRESHOLD : nat := 100.
 
 (* One command line.  st: state; i: loop counter; buf: c.msg.Buffer, the BDAT chunks received
    so far; [self] is the rest of the dialogue (smtp_prog with less fuel); [dotfuel] bounds the
-   DATA text.  clean = true is the reference reading: MAIL FROM starts a mail with an empty
-   buffer; clean = false is the code: only RSET and a finished mail replace c.msg, so chunks
-   of a transaction abandoned otherwise (unknown command, empty line) stay in the buffer. *)
+   DATA text.  clean = true is the code since a828b58 and the reference reading: MAIL FROM starts a
+   mail with an empty buffer; clean = false is the code before it: only RSET and a finished
+   mail replaced c.msg, so chunks of a transaction abandoned otherwise (unknown command, empty
+   line) stayed in the buffer (kept for the regression statement). *)
 Definition smtp_step (clean : bool) (self : smtp_st -> nat -> bytes -> prog) (dotfuel : nat)
            (st : smtp_st) (i : nat) (buf : bytes) (line : bytes) : prog :=
   match st with
@@ -1084,7 +1085,7 @@ Definition SVC_DNS : N := 23%N.
 (* the code *)
 Definition impl_prog (svc : N) (fuel : nat) : prog :=
   if beq svc SVC_FTP then ftp_prog fuel
-  else if beq svc SVC_SMTP then smtp_prog false fuel SHello 0 []
+  else if beq svc SVC_SMTP then smtp_prog true fuel SHello 0 []
   else if beq svc SVC_REDIS then redis_prog fuel []
   else if beq svc SVC_MEMCACHED then memcached_prog false fuel
   else if beq svc SVC_HTTP then http_prog cfg_http false fuel
